@@ -1,4 +1,5 @@
-// Package walletrestart: correspondence engine "wallet-restart" for C08 at the wallet.Wallet level.
+// Package walletrestart: correspondence engine "wallet-restart" for C08 and C05 at the wallet.Wallet level
+// (violations are tagged `C08 key=...` / `C05 key=...`; bin/check counts the ones of the property it checks).
 //
 // One case = one real wallet.Wallet on a real bdb file (fast scrypt, idle fake chain backend).  After EVERY op the
 // database file is copied, a SECOND wallet is opened on the copy (wallet.Open) and asked the queries of the property
@@ -9,7 +10,7 @@
 //
 // Ops:
 //
-//	reset
+//	reset [pf=<0|1>]                         pf=1: see probePubFix (gen.go)
 //	newaddr sc=<np|wpkh|tr> a=<n>            wallet.NewAddress
 //	newchange sc= a=                         wallet.NewChangeAddress
 //	curaddr sc= a=                           wallet.CurrentAddress
@@ -20,7 +21,14 @@
 //	import sc= name= key=                    wallet.ImportAccount
 //	rename sc= a= name=                      wallet.RenameAccount
 //	newacct sc= name=                        wallet.NextAccount
-//	lock / unlock
+//	importdry ... race=1 ra=<key.br.idx>     the dry run with a concurrent wallet.AddressInfo of that address (race.go)
+//	restart                                  the running wallet is stopped and opened again on its database
+//	lock / unlock [pass=<0..3>]              wallet.Lock / wallet.Unlock (no pass= : the passphrase a restarted wallet accepts)
+//	chpriv old=<0..3> new=<0..3>             wallet.ChangePrivatePassphrase
+//	chpub old=<0..2> new=<0..2>              wallet.ChangePublicPassphrase
+//	chboth pubold= pubnew= privold= privnew= wallet.ChangePassphrases
+//	passprobe                                Unlock with every OTHER known private passphrase, then with the current one
+//	                                         (= the one a restarted wallet accepts); the lock state is restored
 //	cmp                                      running wallet answers every query; oracle: equal to the restarted one
 //
 // name ids: 0 = "" (invalid), 1 = "default", k = "n<k>".  key ids: 1..4 imported xpubs, 100+a = the wallet's own
@@ -84,6 +92,31 @@ var (
 		{"tr", waddrmgr.KeyScopeBIP0086, waddrmgr.TaprootPubKey},
 	}
 )
+
+// passphrase ids: private 0 = the passphrase of wallet.Create, k = "priv-k"; public 0 = "public", k = "pub-k"
+const (
+	nPrivPass = 4
+	nPubPass  = 3
+)
+
+func privPassOf(id int) []byte {
+	if id == 0 {
+		return privPass
+	}
+	return []byte(fmt.Sprintf("priv-%d", id))
+}
+
+func pubPassOf(id int) []byte {
+	if id == 0 {
+		return pubPass
+	}
+	return []byte(fmt.Sprintf("pub-%d", id))
+}
+
+func passID(s string, n int) (int, bool) {
+	v, ok := atoi(s)
+	return v, ok && v < n
+}
 
 const (
 	nImportKeys = 4
@@ -388,6 +421,8 @@ type runner struct {
 	dryImports int
 	prevBlame  string            // blame of the op's (scope, account) before the op ran
 	taint      map[[2]int]string // sticky blame: account touched by an eager mutator whose commit failed
+	curPub     int               // public passphrase id that opened the last database copy
+	passBlame  string            // last wallet op that asked for a passphrase change (C05 oracle keys)
 }
 
 func (r *runner) Close() {
@@ -438,6 +473,7 @@ func (r *runner) reset() error {
 	r.blame = map[[2]int]string{}
 	r.taint = map[[2]int]string{}
 	r.dryImports = 0
+	r.curPub, r.passBlame = 0, ""
 	return nil
 }
 
@@ -509,6 +545,9 @@ type digest struct {
 	nums  [3]map[string]string // name id -> account number or "-"
 	addrs []addrView         // parallel to runner.u
 	next  [3]map[[2]int]string // (account, branch) -> designator the wallet issues next (restarted wallet only)
+	priv  int                  // private passphrase id the restarted wallet unlocks with (-1: none of the known ones)
+	pub   int                  // public passphrase id the database copy opened with
+	hasP  bool                 // restarted wallet only
 	str   string
 }
 
@@ -696,27 +735,80 @@ func (r *runner) render(d *digest) {
 		}
 		b.WriteByte('}')
 	}
+	if d.hasP {
+		fmt.Fprintf(&b, " P=%d/%d", d.priv, d.pub)
+	}
 	d.str = b.String()
 }
 
 // restarted copies the database file, opens a second wallet on the copy, asks it every query and lets it issue the
 // next address of every branch.
-func (r *runner) restarted() (*digest, error) {
+// openCopy copies the database file and opens a second wallet on the copy with the public passphrase that opened
+// the previous copy; when that one is refused the other known public passphrases are tried (the one that works is
+// the database's current public passphrase).
+func (r *runner) openCopy() (walletdb.DB, *wallet.Wallet, string, error) {
 	r.copies++
 	path := filepath.Join(r.dir, fmt.Sprintf("copy%d.db", r.copies))
 	if err := copyFile(filepath.Join(r.dir, "wallet.db"), path); err != nil {
-		return nil, err
+		return nil, nil, path, err
 	}
-	defer os.Remove(path)
 	db, err := walletdb.Open("bdb", path, true, 10*time.Second, false)
+	if err != nil {
+		return nil, nil, path, err
+	}
+	order := []int{r.curPub}
+	for id := 0; id < nPubPass; id++ {
+		if id != r.curPub {
+			order = append(order, id)
+		}
+	}
+	var lastErr error
+	for _, id := range order {
+		w2, err := wallet.OpenWithRetry(db, pubPassOf(id), nil, params, 0, 10*time.Millisecond)
+		if err == nil {
+			r.curPub = id
+			return db, w2, path, nil
+		}
+		lastErr = err
+		if errClass(err) != "wrong-pass" {
+			break
+		}
+	}
+	db.Close()
+	return nil, nil, path, lastErr
+}
+
+// diskPriv: the private passphrase the (throw-away) restarted wallet's manager unlocks with; `first` is tried first.
+func diskPriv(w2 *wallet.Wallet, first int) int {
+	order := []int{}
+	if first >= 0 && first < nPrivPass {
+		order = append(order, first)
+	}
+	for id := 0; id < nPrivPass; id++ {
+		if id != first {
+			order = append(order, id)
+		}
+	}
+	for _, id := range order {
+		err := walletdb.View(w2.Database(), func(tx walletdb.ReadTx) error {
+			return w2.Manager.Unlock(tx.ReadBucket([]byte("waddrmgr")), privPassOf(id))
+		})
+		if err == nil {
+			return id
+		}
+	}
+	return -1
+}
+
+// restarted copies the database file, opens a second wallet on the copy, asks it every query and lets it issue the
+// next address of every branch; last it finds the private passphrase the copy unlocks with.
+func (r *runner) restarted() (*digest, error) {
+	db, w2, path, err := r.openCopy()
+	defer os.Remove(path)
 	if err != nil {
 		return nil, err
 	}
 	defer db.Close()
-	w2, err := wallet.OpenWithRetry(db, pubPass, nil, params, 0, 10*time.Millisecond)
-	if err != nil {
-		return nil, err
-	}
 	w2.SynchronizeRPC(newFakeChain())
 	defer func() {
 		w2.Stop()
@@ -727,33 +819,29 @@ func (r *runner) restarted() (*digest, error) {
 		return nil, err
 	}
 	r.issueAll(w2, d)
+	first := 0
+	if r.prev != nil {
+		first = r.prev.priv
+	}
+	d.priv, d.pub, d.hasP = diskPriv(w2, first), r.curPub, true
 	r.render(d)
 	return d, nil
 }
 
-// restartedUnlock: does a wallet restarted on the current database unlock with the right passphrase?
-func (r *runner) restartedUnlock() error {
-	r.copies++
-	path := filepath.Join(r.dir, fmt.Sprintf("copy%d.db", r.copies))
-	if err := copyFile(filepath.Join(r.dir, "wallet.db"), path); err != nil {
-		return err
-	}
+// restartedUnlock: does a wallet restarted on the current database unlock with private passphrase `id`?
+func (r *runner) restartedUnlock(id int) error {
+	db, w2, path, err := r.openCopy()
 	defer os.Remove(path)
-	db, err := walletdb.Open("bdb", path, true, 10*time.Second, false)
 	if err != nil {
 		return err
 	}
 	defer db.Close()
-	w2, err := wallet.OpenWithRetry(db, pubPass, nil, params, 0, 10*time.Millisecond)
-	if err != nil {
-		return err
-	}
 	w2.Start()
 	defer func() {
 		w2.Stop()
 		w2.WaitForShutdown()
 	}()
-	return w2.Unlock(privPass, nil)
+	return w2.Unlock(privPassOf(id), nil)
 }
 
 // ---------------------------------------------------------------- oracle: running wallet vs restarted wallet
@@ -874,6 +962,7 @@ type opResult struct {
 	rolledBack bool     // the op's database transaction did not commit (error, or dry run)
 	issued     []string // "sc/a/br" -> designator, for committed issuing requests
 	viol       []string
+	newPriv    int // private passphrase a successful change request set (-1: none)
 }
 
 func (r *runner) expectNext(res *opResult, name string, sc, a, br int, got des) {
@@ -897,6 +986,12 @@ func (r *runner) expectNext(res *opResult, name string, sc, a, br int, got des) 
 func (r *runner) Exec(op string) (string, string) {
 	kind, kv := core.KV(op)
 	if kind == "reset" {
+		// pf=1: the generator's probe found the ChangePassphrases public-half fix in the tree (tells the Lean model
+		// which variant to follow; the runner does not care)
+		if v, has := kv["pf"]; has && !is01(v) {
+			r.Close() // a refused reset ends the case's wallet
+			return "bad-op", ""
+		}
 		if err := r.reset(); err != nil {
 			return "harness-error " + err.Error(), ""
 		}
@@ -912,7 +1007,7 @@ func (r *runner) Exec(op string) (string, string) {
 	}
 	sc := scopeIdx(kv["sc"])
 	a, aok := atoi(kv["a"])
-	var res opResult
+	res := opResult{newPriv: -1}
 	// cf=1: the commit of the request's database transaction fails (newaddr, newchange, createtx, import, rename)
 	cf := false
 	if v, has := kv["cf"]; has {
@@ -955,7 +1050,24 @@ func (r *runner) Exec(op string) (string, string) {
 		if _, ok := atoi(kv["name"]); sc < 0 || !ok || kv["key"] == "" {
 			return "bad-op", ""
 		}
-		if !r.opImport(&res, kind == "importdry", sc, kv["name"], kv["key"], kv["n"]) {
+		var raceAddr btcutil.Address
+		if v, has := kv["race"]; has {
+			if !is01(v) || (v == "1" && kind != "importdry") {
+				return "bad-op", ""
+			}
+			if v == "1" {
+				var d des
+				if n, _ := fmt.Sscanf(kv["ra"], "%d.%d.%d", &d.key, &d.br, &d.idx); n != 3 ||
+					kv["ra"] != fmt.Sprintf("%d.%d.%d", d.key, d.br, d.idx) {
+					return "bad-op", ""
+				}
+				d.sc = sc
+				if raceAddr = addrOf[d]; raceAddr == nil {
+					return "bad-op", ""
+				}
+			}
+		}
+		if !r.opImport(&res, kind == "importdry", sc, kv["name"], kv["key"], kv["n"], raceAddr) {
 			return "bad-op", ""
 		}
 	case "rename":
@@ -979,21 +1091,81 @@ func (r *runner) Exec(op string) (string, string) {
 		if err == nil {
 			res.text = fmt.Sprintf("ok acct=%d", n)
 		}
+	case "restart":
+		// the process restarts: stop the running wallet, open it again on its database (locked, empty caches)
+		r.w.Stop()
+		r.w.WaitForShutdown()
+		w, err := wallet.OpenWithRetry(r.fdb, pubPassOf(r.prev.pub), nil, params, 0, 10*time.Millisecond)
+		if err != nil {
+			return "harness-error restart: " + err.Error(), ""
+		}
+		r.w = w
+		r.w.Start()
+		r.fc = newFakeChain()
+		r.w.SynchronizeRPC(r.fc)
+		res.text = "ok"
 	case "lock":
 		r.w.Lock()
 		res.text = "ok"
 	case "unlock":
-		err := r.w.Unlock(privPass, nil)
-		res.text = errClass(err)
-		if err != nil {
-			// oracle: a wallet restarted on the same database unlocks with the same passphrase
-			if e2 := r.restartedUnlock(); e2 == nil {
-				who := "Unattributed"
-				if r.dryImports > 0 {
-					who = "ImportAccountDryRun"
-				}
-				res.viol = append(res.viol, fmt.Sprintf("C08 key=%s.unlock-fails-unlike-restart: Unlock with the right passphrase fails on the running wallet (%v) while a wallet restarted on the same database unlocks", who, strings.ReplaceAll(err.Error(), ";", ",")))
+		id := r.prev.priv
+		if v, has := kv["pass"]; has {
+			var ok bool
+			if id, ok = passID(v, nPrivPass); !ok {
+				return "bad-op", ""
 			}
+		}
+		res.text = r.unlockWith(&res, id)
+	case "passprobe":
+		// Unlock with every other known private passphrase, then with the current one; restore the lock state
+		wasLocked := r.w.Locked()
+		var parts []string
+		for id := 0; id < nPrivPass; id++ {
+			if id != r.prev.priv {
+				parts = append(parts, fmt.Sprintf("%d:%s", id, r.unlockWith(&res, id)))
+			}
+		}
+		if r.prev.priv >= 0 {
+			parts = append(parts, fmt.Sprintf("%d:%s", r.prev.priv, r.unlockWith(&res, r.prev.priv)))
+		}
+		if wasLocked {
+			r.w.Lock()
+		}
+		res.text = "probe " + strings.Join(parts, ",")
+	case "chpriv", "chpub":
+		n := nPrivPass
+		if kind == "chpub" {
+			n = nPubPass
+		}
+		o, ok1 := passID(kv["old"], n)
+		nw, ok2 := passID(kv["new"], n)
+		if !ok1 || !ok2 {
+			return "bad-op", ""
+		}
+		var err error
+		if kind == "chpriv" {
+			r.passBlame = "ChangePrivatePassphrase"
+			err = r.w.ChangePrivatePassphrase(privPassOf(o), privPassOf(nw))
+		} else {
+			err = r.w.ChangePublicPassphrase(pubPassOf(o), pubPassOf(nw))
+		}
+		res.text, res.rolledBack = errClass(err), err != nil
+		if err == nil && kind == "chpriv" {
+			res.newPriv = nw
+		}
+	case "chboth":
+		po, ok1 := passID(kv["pubold"], nPubPass)
+		pn, ok2 := passID(kv["pubnew"], nPubPass)
+		vo, ok3 := passID(kv["privold"], nPrivPass)
+		vn, ok4 := passID(kv["privnew"], nPrivPass)
+		if !ok1 || !ok2 || !ok3 || !ok4 {
+			return "bad-op", ""
+		}
+		r.passBlame = "ChangePassphrases"
+		err := r.w.ChangePassphrases(pubPassOf(po), pubPassOf(pn), privPassOf(vo), privPassOf(vn))
+		res.text, res.rolledBack = errClass(err), err != nil
+		if err == nil {
+			res.newPriv = vn
 		}
 	case "cmp":
 		run, err := r.query(r.w)
@@ -1054,14 +1226,83 @@ func (r *runner) Exec(op string) (string, string) {
 				opName(kind, kv), diff))
 		}
 	}
+	// C05: a request that reported a successful private passphrase change makes the new passphrase the one a restarted
+	// wallet accepts; every other request (failed changes included) leaves it as it was
+	if r.prev != nil {
+		switch {
+		case res.newPriv >= 0 && d.priv != res.newPriv:
+			res.viol = append(res.viol, fmt.Sprintf("C05 key=%s.new-passphrase-refused-after-restart: the change to private passphrase %d succeeded, a restarted wallet unlocks with passphrase %d",
+				r.passKey(), res.newPriv, d.priv))
+		case res.newPriv < 0 && d.priv != r.prev.priv:
+			res.viol = append(res.viol, fmt.Sprintf("C05 key=%s.passphrase-changed-without-successful-change: a restarted wallet unlocked with private passphrase %d before the request and with %d after it",
+				opName(kind, kv), r.prev.priv, d.priv))
+		}
+	}
 	r.prev = d
 	return res.text + " D[" + d.str + "]", strings.Join(dedup(res.viol), "; ")
+}
+
+func (r *runner) passKey() string {
+	if r.passBlame != "" {
+		return r.passBlame
+	}
+	return "Unlock"
+}
+
+// unlockWith runs wallet.Unlock(private passphrase id) on the RUNNING wallet and evaluates C05's sentence against the
+// restarted wallet of the previous op (r.prev.priv = the passphrase a wallet restarted on the database accepts; Unlock
+// does not write): the current passphrase unlocks; any other is refused with ErrWrongPassphrase and leaves it locked.
+func (r *runner) unlockWith(res *opResult, id int) string {
+	err := r.w.Unlock(privPassOf(id), nil)
+	cls := errClass(err)
+	locked := r.w.Locked()
+	cur := r.prev.priv
+	who := r.passKey()
+	say := func(e error) string {
+		if e == nil {
+			return "<nil>"
+		}
+		return strings.ReplaceAll(e.Error(), ";", ",")
+	}
+	switch {
+	case id == cur && cls == "wrong-pass":
+		res.viol = append(res.viol, fmt.Sprintf("C05 key=%s.current-passphrase-refused: Unlock with private passphrase %d fails on the running wallet (%s) while a wallet restarted on the same database unlocks with it",
+			who, id, say(err)))
+	case id == cur && err != nil:
+		// not a passphrase verdict (e.g. ErrAccountNotFound from the derive-on-unlock queue): confirm on a restarted wallet
+		if e2 := r.restartedUnlock(id); e2 == nil {
+			w := "Unattributed"
+			if r.dryImports > 0 {
+				w = "ImportAccountDryRun"
+			}
+			text := fmt.Sprintf("Unlock with the right passphrase fails on the running wallet (%s) while a wallet restarted on the same database unlocks", say(err))
+			res.viol = append(res.viol, fmt.Sprintf("C08 key=%s.unlock-fails-unlike-restart: %s", w, text),
+				fmt.Sprintf("C05 key=%s.unlock-fails-unlike-restart: %s", w, text))
+		}
+	case id == cur && locked:
+		res.viol = append(res.viol, fmt.Sprintf("C05 key=%s.unlocked-wallet-reports-locked: Unlock with the current passphrase %d returned nil but the wallet is locked", who, id))
+	case id != cur && err == nil:
+		res.viol = append(res.viol, fmt.Sprintf("C05 key=%s.other-passphrase-accepted: Unlock with private passphrase %d succeeds on the running wallet; a wallet restarted on the same database refuses it (its passphrase is %d)",
+			who, id, cur))
+	case id != cur && cls != "wrong-pass":
+		res.viol = append(res.viol, fmt.Sprintf("C05 key=%s.other-passphrase-wrong-error: Unlock with a wrong passphrase: want ErrWrongPassphrase, got %s", who, say(err)))
+	case id != cur && !locked:
+		res.viol = append(res.viol, fmt.Sprintf("C05 key=%s.wrong-passphrase-left-unlocked: Unlock with wrong passphrase %d was refused but the wallet is not locked", who, id))
+	}
+	if (id == cur) != (err == nil) && (cls == "ok" || cls == "wrong-pass") {
+		res.viol = append(res.viol, fmt.Sprintf("C05 key=%s.running-wallet-passphrase-differs-from-restart: private passphrase %d: running wallet %s, restarted wallet %v",
+			who, id, cls, map[bool]string{true: "ok", false: "wrong-pass"}[id == cur]))
+	}
+	return cls
 }
 
 // diskChanged compares two restarted-wallet answer sets over the universe of the OLDER one (names and addresses
 // first mentioned by the op in between are new questions, not changed answers); addresses first handed out by the
 // op in between must be unknown to the restarted wallet.
 func (r *runner) diskChanged(old, cur *digest) string {
+	if old.hasP && cur.hasP && (old.priv != cur.priv || old.pub != cur.pub) {
+		return fmt.Sprintf("passphrases a restarted wallet accepts (private/public) %d/%d -> %d/%d", old.priv, old.pub, cur.priv, cur.pub)
+	}
 	for sc, sd := range scopes {
 		if old.last[sc] != cur.last[sc] {
 			return fmt.Sprintf("scope %s last account %d -> %d", sd.name, old.last[sc], cur.last[sc])
@@ -1131,6 +1372,16 @@ func opName(kind string, kv map[string]string) string {
 		return "RenameAccount"
 	case "newacct":
 		return "NextAccount"
+	case "chpriv":
+		return "ChangePrivatePassphrase"
+	case "chpub":
+		return "ChangePublicPassphrase"
+	case "chboth":
+		return "ChangePassphrases"
+	case "unlock", "passprobe":
+		return "Unlock"
+	case "lock":
+		return "Lock"
 	}
 	return kind
 }
@@ -1310,7 +1561,7 @@ func (r *runner) opFundPsbt(res *opResult, sc, a int, coinSel string) bool {
 	return true
 }
 
-func (r *runner) opImport(res *opResult, dry bool, sc int, nameId, keyId, nStr string) bool {
+func (r *runner) opImport(res *opResult, dry bool, sc int, nameId, keyId, nStr string, raceAddr btcutil.Address) bool {
 	var key *hdkeychain.ExtendedKey
 	fp := uint32(0)
 	if keyId == "bad" {
@@ -1355,7 +1606,16 @@ func (r *runner) opImport(res *opResult, dry bool, sc int, nameId, keyId, nStr s
 	}
 	res.rolledBack = true
 	r.dryImports++
+	var rc *raceCtl
+	if raceAddr != nil {
+		rc = &raceCtl{addr: raceAddr, w: func(a btcutil.Address) error { _, err := r.w.AddressInfo(a); return err }}
+		r.fdb.setHook(rc.onPut)
+	}
 	p, ext, in, err := r.w.ImportAccountDryRun(nameStr(nameId), key, fp, &at, n)
+	if rc != nil {
+		r.fdb.setHook(nil)
+		_ = rc.finish()
+	}
 	if err != nil {
 		res.text = errClass(err)
 		return true
